@@ -384,6 +384,49 @@ def gen_c20_scans(ctx):
             if isinstance(n, ast.Call) and isinstance(n.func, ast.Attribute) and n.func.attr in ('append', 'remove', 'pop', 'add', 'extend') \
                     and re.search(r'ranking|electionProfile|\bbl\b', norm_src(n.func.value)):
                 bad.append('%s:%d %s' % (mn, n.lineno, norm_src(n)))
+    # aliases: a name bound (assignment, for target, comprehension target) to an expression that reads `.ranking` (or
+    # another such name) denotes data shared with the ElectionProfile; it must not be mutated in place either
+    MUTATORS = {'append', 'remove', 'pop', 'add', 'extend', 'insert', 'sort', 'reverse', 'clear', 'update', 'discard'}
+    for mn in RULE_MODULES + ['droop.election']:
+        m = repo.module(mn)
+        for fn in [f for f in repo.all_functions() if f.module is m]:
+            tainted = set()
+
+            def reads_shared(e):
+                for x in ast.walk(e):
+                    if isinstance(x, ast.Attribute) and x.attr in ('ranking', 'ballotLines', 'ballotLinesEqual'):
+                        return True
+                    if isinstance(x, ast.Name) and x.id in tainted:
+                        return True
+                return False
+
+            def copies(e):
+                "list(x), tuple(x), sorted(x), x[:] used as a value, comprehensions: a new container"
+                return isinstance(e, (ast.ListComp, ast.SetComp, ast.DictComp, ast.GeneratorExp, ast.Tuple, ast.List, ast.Compare, ast.BoolOp)) or \
+                    (isinstance(e, ast.Call) and isinstance(e.func, ast.Name) and e.func.id in ('list', 'tuple', 'sorted', 'set', 'len', 'dict', 'int', 'sum'))
+            for _ in range(3):
+                for n in ast.walk(fn.node):
+                    if isinstance(n, ast.Assign) and reads_shared(n.value) and not copies(n.value):
+                        for t in n.targets:
+                            for x in ast.walk(t):
+                                if isinstance(x, ast.Name) and isinstance(x.ctx, ast.Store):
+                                    tainted.add(x.id)
+                    if isinstance(n, (ast.For, ast.comprehension)) and reads_shared(n.iter):
+                        for x in ast.walk(n.target):
+                            if isinstance(x, ast.Name):
+                                tainted.add(x.id)
+            for n in ast.walk(fn.node):
+                tgts = n.targets if isinstance(n, ast.Assign) else ([n.target] if isinstance(n, ast.AugAssign) else [])
+                for t in tgts:
+                    if isinstance(t, ast.Subscript) and isinstance(t.value, ast.Name) and t.value.id in tainted:
+                        bad.append('%s:%d in-place store through alias %s' % (mn, n.lineno, norm_src(t)))
+                if isinstance(n, ast.Call) and isinstance(n.func, ast.Attribute) and n.func.attr in MUTATORS \
+                        and isinstance(n.func.value, ast.Name) and n.func.value.id in tainted:
+                    bad.append('%s:%d %s' % (mn, n.lineno, norm_src(n)))
+                if isinstance(n, ast.Delete):
+                    for t in n.targets:
+                        if isinstance(t, ast.Subscript) and isinstance(t.value, ast.Name) and t.value.id in tainted:
+                            bad.append('%s:%d del through alias' % (mn, n.lineno))
     scan(ctx, P, 'droop/election.py + rules', 'profile-read-only', 'Election and the rules only read the ElectionProfile (rankings are shared, never written)',
          not bad, detail='; '.join(bad))
 
@@ -641,6 +684,34 @@ def gen_c18_scans(ctx):
     missing = {k: v for k, v in reads.items() if k not in writes}
     scan(ctx, P, 'droop/record.py + hooks', 'key-safety', 'every key the renderers read from an action or a candidate state is written by action()/as_dict()/the rule hooks',
          not missing, 'read but never written: %s' % missing)
+    # the renderers never test a recorded number for truthiness: Guarded.__bool__ is exact while the comparisons of the
+    # class are tolerant, so `not v` and `v == V0` disagree inside the guard band and a candidate could drop out of both
+    # the "zero" and the "positive" listing of the report
+    NUM_KEYS = {'vote', 'votes', 'quota', 'surplus', 'residual', 'nt_votes', 'kf', 'quotient'}
+    truthy = []
+    for mn in ('droop.record', 'droop.rules.electionmethods', 'droop.rules.qpq', 'droop.rules.mpls'):
+        m = repo.module(mn)
+        if m is None:
+            continue
+
+        def is_num(e):
+            return isinstance(e, ast.Subscript) and isinstance(e.slice, ast.Constant) and e.slice.value in NUM_KEYS
+        for n in ast.walk(m.tree):
+            tests = []
+            if isinstance(n, (ast.If, ast.IfExp, ast.While)):
+                tests.append(n.test)
+            if isinstance(n, ast.comprehension):
+                tests += n.ifs
+            if isinstance(n, ast.UnaryOp) and isinstance(n.op, ast.Not):
+                tests.append(n.operand)
+            if isinstance(n, ast.BoolOp):
+                tests += n.values
+            for t in tests:
+                if is_num(t):
+                    truthy.append('%s:%d %s' % (mn, t.lineno, norm_src(t)))
+    scan(ctx, P, 'droop/record.py + hooks', 'no-truthiness-on-numbers',
+         'the renderers compare recorded tallies with the arithmetic\'s own comparisons, never by truthiness (exact under guarded arithmetic)',
+         not truthy, '; '.join(sorted(set(truthy))))
     # Election.count: 'end' is the last action; afterwards only the result lists are taken and postCheck runs
     f, _ = _func_src(repo, 'droop.election.Election.count')
     ok = False
